@@ -131,6 +131,8 @@ PROPS["C10"] = {
 OP_PROPS["conc.round"] = ["C10"]
 OP_PROPS["gmap.ops"] = ["C18"]
 OP_PROPS["iso.pair"] = ["C09"]
+OP_PROPS["rfl.conv"] = ["C18"]
+OP_PROPS["rfl.json"] = ["C18"]
 OP_PROPS["upd.mode"] = ["C20"]
 OP_PROPS["upd.sync"] = ["C20"]
 OP_PROPS["upd.conv"] = ["C08", "C20"]
